@@ -7,7 +7,13 @@ returned by load_job / load_search is KEPT and compared again at the end (snapsh
 Gallina), and kept objects are scribbled over to see that the storage does not change (snapshot, other direction).
 Oracles are the extracted Coq checkers ids_fresh_b (1303), ok_ryw (1304), ok_C13 (1305), ok_exist (1306).
 Concurrency: 2..8 client processes on one SharedMemoryStorage, observed histories judged by ok_C13.
-Atomicity certificate: dis of create_new_search / create_new_job, no eval-breaker opcode between counter read and write.
+Atomicity certificate (stream atomicity_certificate): when the storage uses a lock, structural: (i) a fresh / pickled / deep-copied /
+__setstate__-built MemoryStorage owns a lock object before its first operation, the lock attribute is bound only in __init__ /
+__setstate__ and its name occurs nowhere as a string (ast of the current source, fail closed), (ii) every public data method blocks
+while another thread holds that lock, (iii) the same for the object served by the SharedMemoryStorage manager (probe run inside the
+server before any operation).  Without a lock: dis of create_new_search / create_new_job, no eval-breaker opcode between counter
+read and write.  A broken certificate is a correspondence break; the search then tries forced two-thread schedules on a fresh
+storage (sys.settrace), a fresh-storage stress and the multi-process stress, all judged by ids_fresh_b.
 
 Python value <-> model value: see coq/theories/C13_Storage/Entry.v.  Strings are integer tokens (fixed table for the names
 the storage uses itself, case-local table for everything else); no string reaches the extracted code.
@@ -936,12 +942,336 @@ def certificate(fn, counter_name, is_attr):
     return (not bad), ("between read@%d and write@%d: %s" % (rd, wr, " ".join(x.opname for x in ins[rd:wr + 1])))
 
 
+# ---- atomicity from a lock: structural certificate (the theorems assume atomic operations) ----
+METHOD_ARGS = {
+    "create_new_search": (), "create_new_job": ("0",), "store_job": ("0.0", "k", 1), "store_job_in": ("0.0", (1,), {"a": 1}),
+    "store_job_out": ("0.0", 1), "store_job_metadata": ("0.0", "k", 1), "load_all_search_ids": (), "load_all_job_ids": ("0",),
+    "load_search": ("0",), "load_job": ("0.0",), "store_search_value": ("0", "k", 1), "load_search_value": ("0", "k"),
+    "load_metadata_from_all_jobs": ("0", "k"), "load_out_from_all_jobs": ("0",), "load_jobs": (["0.0"],),
+    "store_job_status": ("0.0", 1), "load_job_status": ("0.0",),
+}
+
+
+def is_lock(x):
+    return x is not None and "lock" in type(x).__name__.lower() and hasattr(x, "acquire") and hasattr(x, "release")
+
+
+def lock_attrs(obj):
+    return sorted(k for k, v in vars(obj).items() if is_lock(v))
+
+
+def data_methods():
+    from deephyper.evaluator.storage import Storage
+
+    return sorted(n for n in Storage.__abstractmethods__ if not n.startswith("_"))
+
+
+def static_lock_facts(cls):
+    """ast of the module that defines cls: names X used as `with self.X:`; violations of
+    'X is bound only in __init__ / __setstate__ and its name appears nowhere as a string'. Fails closed (raises)."""
+    import ast
+    import inspect
+
+    mod = inspect.getmodule(cls)
+    tree = ast.parse(inspect.getsource(mod))
+    with_names = set()
+    for node in ast.walk(tree):
+        if isinstance(node, (ast.With, ast.AsyncWith)):
+            for it in node.items:
+                e = it.context_expr
+                if isinstance(e, ast.Attribute) and isinstance(e.value, ast.Name):
+                    with_names.add(e.attr)
+    bad = []
+
+    def visit(node, fn):
+        for ch in ast.iter_child_nodes(node):
+            f2 = ch.name if isinstance(ch, (ast.FunctionDef, ast.AsyncFunctionDef)) else fn
+            if isinstance(ch, ast.Attribute) and ch.attr in with_names and isinstance(ch.ctx, (ast.Store, ast.Del)) and fn not in ("__init__", "__setstate__"):
+                bad.append("line %d: self.%s is (re)bound in %s" % (ch.lineno, ch.attr, fn or "<module>"))
+            if isinstance(ch, ast.Constant) and isinstance(ch.value, str) and ch.value in with_names:
+                bad.append("line %d: the name %r appears as a string in %s (setattr / __dict__ / state dictionary)" % (ch.lineno, ch.value, fn or "<module>"))
+            visit(ch, f2)
+
+    visit(tree, None)
+    return sorted(with_names), bad
+
+
+def blocking_test(obj, names, hold=0.3):
+    """Every data method, called from another thread while THIS thread holds the lock(s) of obj, must block until release."""
+    import threading
+
+    locks = [getattr(obj, k) for k in names]
+    started = {m: threading.Event() for m in METHOD_ARGS}
+    done = {m: threading.Event() for m in METHOD_ARGS}
+
+    def call(m):
+        started[m].set()
+        try:
+            getattr(obj, m)(*METHOD_ARGS[m])
+        except Exception:
+            pass
+        finally:
+            done[m].set()
+
+    ths = []
+    for l in locks:
+        l.acquire()
+    try:
+        for m in METHOD_ARGS:
+            t = threading.Thread(target=call, args=(m,), daemon=True)
+            t.start()
+            ths.append(t)
+        for m in METHOD_ARGS:
+            started[m].wait(20)
+        time.sleep(hold)
+        not_blocked = sorted(m for m in METHOD_ARGS if done[m].is_set())
+    finally:
+        for l in locks:
+            l.release()
+    for t in ths:
+        t.join(20)
+    stuck = sorted(m for m in METHOD_ARGS if not done[m].is_set())
+    return not_blocked, stuck
+
+
+def instance_certificate(obj, with_names, prepare=True):
+    """Problems (list of str) with the lock discipline of one storage object. (i) is read BEFORE any operation."""
+    probs = []
+    names = lock_attrs(obj)
+    for x in with_names:
+        if x not in names:
+            probs.append("attribute %s used by `with self.%s` is %r, not a lock, before the first operation" % (x, x, vars(obj).get(x, "<missing>")))
+    if not names:
+        probs.append("no lock object among the attributes %s" % sorted(vars(obj)))
+        return probs
+    before = {k: id(getattr(obj, k)) for k in names}
+    if prepare:
+        s0 = obj.create_new_search()
+        j0 = obj.create_new_job(s0)
+        if (s0, j0) != ("0", "0.0"):
+            probs.append("unexpected first ids %r %r" % (s0, j0))
+    not_blocked, stuck = blocking_test(obj, [x for x in with_names if x in names] or names)
+    if not_blocked:
+        probs.append("methods that ran while another thread held the lock: %s" % not_blocked)
+    if stuck:
+        probs.append("methods that never returned after the lock was released: %s" % stuck)
+    after = {k: id(getattr(obj, k, None)) for k in names}
+    if after != before:
+        probs.append("the lock object was replaced during operations")
+    return probs
+
+
+def server_probe():
+    """Runs INSIDE the manager's server process (registered on BaseManager by the harness): the storages it serves."""
+    import gc
+
+    from deephyper.evaluator.storage import MemoryStorage
+
+    from multiprocessing.managers import Server
+
+    with_names, _ = static_lock_facts(MemoryStorage)
+    objs = []
+    for srv in [o for o in gc.get_objects() if isinstance(o, Server)]:  # the objects this server really serves
+        for ent in list(srv.id_to_obj.values()):
+            if isinstance(ent[0], MemoryStorage):
+                objs.append(ent[0])
+    return dict(n=len(objs), problems=[p for o in objs for p in instance_certificate(o, with_names)])
+
+
+def lock_certificate():
+    """(ok, detail) - atomicity of every public data method from the storage lock, certified structurally."""
+    import copy
+    import pickle
+    from multiprocessing.managers import BaseManager
+
+    from deephyper.evaluator.storage import MemoryStorage
+
+    detail = {}
+    try:
+        with_names, bad = static_lock_facts(MemoryStorage)
+    except Exception as e:  # fail closed
+        return False, dict(static="cannot analyse the source: %s: %s" % (type(e).__name__, e))
+    detail["lock_names"] = with_names
+    probs = list(bad)
+    if not with_names:
+        probs.append("no `with self.<lock>:` in the module")
+    meths = data_methods()
+    unknown = [m for m in meths if m not in METHOD_ARGS]
+    if unknown:
+        probs.append("public data methods unknown to the certificate: %s" % unknown)
+    for m in meths:
+        fn = getattr(MemoryStorage, m)
+        if not hasattr(fn, "__wrapped__"):
+            src_ok = lock_held(list(dis.get_instructions(fn)), 10 ** 6)
+            if not src_ok:
+                probs.append("%s is not wrapped and takes no lock" % m)
+    # (i) a fresh storage owns its lock at once; also after pickling, deep copy, and a bare __setstate__
+    fresh = MemoryStorage()
+    variants = dict(fresh=fresh)
+    try:
+        variants["pickled"] = pickle.loads(pickle.dumps(MemoryStorage()))
+        variants["deepcopied"] = copy.deepcopy(MemoryStorage())
+        raw = MemoryStorage.__new__(MemoryStorage)
+        raw.__setstate__(MemoryStorage().__getstate__())
+        variants["setstate"] = raw
+    except Exception as e:
+        probs.append("pickle / deepcopy / __setstate__ raised %s: %s" % (type(e).__name__, e))
+    for name, obj in variants.items():
+        probs += ["%s storage: %s" % (name, p) for p in instance_certificate(obj, with_names)]
+    # (iii) the object served by the SharedMemoryStorage manager, inspected in the server before any operation
+    try:
+        BaseManager.register("c13_probe", callable=server_probe)
+        with Shared() as st:
+            rep = st._manager.c13_probe().copy()
+        if rep.get("n") != 1:
+            probs.append("manager: expected one served MemoryStorage, found %r" % rep.get("n"))
+        probs += ["served storage: %s" % p for p in rep.get("problems", [])]
+        if BaseManager._registry.get("MemoryStorage", (None,))[0] is not MemoryStorage:
+            probs.append("the manager does not serve deephyper's MemoryStorage class")
+    except Exception as e:
+        probs.append("manager probe failed: %s: %s" % (type(e).__name__, e))
+    detail["problems"] = probs
+    return (not probs), detail
+
+
+def uses_lock():
+    from deephyper.evaluator.storage import MemoryStorage
+
+    try:
+        with_names, _ = static_lock_facts(MemoryStorage)
+    except Exception:
+        return True
+    return bool(with_names) or bool(lock_attrs(MemoryStorage())) or any(hasattr(getattr(MemoryStorage, m), "__wrapped__") for m in data_methods())
+
+
+# ---- forced schedules (only after a broken certificate): two threads on a FRESH storage, interleaved with sys.settrace ----
+def forced_pair(ka, kb, op):
+    """Client A is held before the ka-th line it executes in the storage module until client B has reached its kb-th
+    line there (or is blocked / finished); then A runs to the end and B is released.  Returns the two observed histories."""
+    import threading
+
+    from deephyper.evaluator.storage import MemoryStorage, _memory_storage
+
+    fname = _memory_storage.__file__
+    st = MemoryStorage()
+    pre = []
+    if op == "create_new_job":  # one search made through the API first (the storage is then no longer unused)
+        pre = [[[T_CS], [1, parse_sid(st.create_new_search())]]]
+    a_held, b_there, a_done = threading.Event(), threading.Event(), threading.Event()
+    out = {}
+
+    def tracer(k, action):
+        state = dict(n=0, armed=True)
+
+        def local(frame, event, arg):
+            if event == "line" and state["armed"] and frame.f_code.co_filename == fname:
+                state["n"] += 1
+                if state["n"] == k:
+                    state["armed"] = False
+                    action()
+            return local
+
+        def glob(frame, event, arg):
+            return local if frame.f_code.co_filename == fname else None
+
+        return glob
+
+    def run(name, k, action):
+        sys.settrace(tracer(k, action))
+        try:
+            if op == "create_new_search":
+                out[name] = [[T_CS], [1, parse_sid(st.create_new_search())]]
+            else:
+                out[name] = [[T_CJ, 0], [2, parse_jid(st.create_new_job("0"))]]
+        except Exception as e:
+            out[name] = [[T_CS], [11, 9]]
+            out[name + "_exc"] = "%s: %s" % (type(e).__name__, e)
+        finally:
+            sys.settrace(None)
+
+    def a_action():
+        a_held.set()
+        b_there.wait(0.3)
+
+    def b_action():
+        b_there.set()
+        a_done.wait(5)
+
+    def client_a():
+        run("A", ka, a_action)
+        a_done.set()
+
+    def client_b():
+        a_held.wait(5)
+        run("B", kb, b_action)
+        b_there.set()
+
+    ta, tb = threading.Thread(target=client_a, daemon=True), threading.Thread(target=client_b, daemon=True)
+    ta.start()
+    tb.start()
+    ta.join(20)
+    tb.join(20)
+    return pre, out
+
+
+def check_forced(case):
+    res = dict(ok=True, kind="oracle", clause="", sig={}, nontrivial=True, desc=["forced"])
+    m = model()
+    if case["type"] == "fresh_stress":
+        import threading
+
+        from deephyper.evaluator.storage import MemoryStorage
+
+        old = sys.getswitchinterval()
+        sys.setswitchinterval(1e-6)
+        try:
+            for trial in range(case["trials"]):
+                st = MemoryStorage()
+                bar = threading.Barrier(case["threads"])
+                got = []
+
+                def w():
+                    try:
+                        bar.wait(5)
+                    except Exception:
+                        pass
+                    got.append([1, parse_sid(st.create_new_search())])
+
+                ths = [threading.Thread(target=w, daemon=True) for _ in range(case["threads"])]
+                for t in ths:
+                    t.start()
+                for t in ths:
+                    t.join(20)
+                if not m.call(F_FRESH, got):
+                    return dict(res, ok=False, clause="fresh_ids", detail=dict(trial=trial, outputs=got, note="threads released together on a fresh MemoryStorage, switch interval 1e-6"))
+        finally:
+            sys.setswitchinterval(old)
+        return res
+    pre, out = forced_pair(case["ka"], case["kb"], case["op"])
+    hist = [x[1] for x in pre] + [out[k][1] for k in ("A", "B") if k in out]
+    if not m.call(F_FRESH, hist):
+        return dict(res, ok=False, clause="fresh_ids", detail=dict(
+            schedule="fresh MemoryStorage; client A held before its line %d in the storage module until client B reached its line %d; A finishes; B released" % (case["ka"], case["kb"]),
+            op=case["op"], outputs=out))
+    return res
+
+
 def check_certificate(case):
     if case.get("type") == "stress":
         return check_concurrent(case)
+    if case.get("type") in ("forced", "fresh_stress"):
+        return check_forced(case)
     from deephyper.evaluator.storage import MemoryStorage, SharedMemoryStorage  # noqa: F401
 
     res = dict(ok=True, kind="corr", clause="", sig={}, nontrivial=True, desc=["certificate"])
+    if uses_lock():
+        ok, detail = lock_certificate()
+        res["desc"] = ["certificate:lock"]
+        if not ok:
+            return dict(res, ok=False, clause="atomicity_certificate", detail=dict(detail,
+                        note="operations are not certified atomic, so the atomic model (and C13_interleaving) does not describe the code; forced schedules and stress search follow"))
+        return res
+    res["desc"] = ["certificate:bytecode"]
     ok1, t1 = certificate(MemoryStorage.create_new_search, "_search_id_counter", True)
     ok2, t2 = certificate(MemoryStorage.create_new_job, "job_id_counter", False)
     if not (ok1 and ok2):
@@ -952,6 +1282,11 @@ def check_certificate(case):
 
 def gen_certificate(rng, tier):
     if tier == "search":
+        for op in ("create_new_search", "create_new_job"):
+            for ka in range(1, 9):
+                for kb in range(1, 11):
+                    yield dict(type="forced", op=op, ka=ka, kb=kb)
+        yield dict(type="fresh_stress", trials=1500, threads=3)
         for i in range(12):
             nc = 8
             yield dict(type="stress", nsearch=1, pre=[], scripts=[[["new", 0]] * 1500 for _ in range(nc)], start="fork", switch=1e-6)
